@@ -479,7 +479,16 @@ class Array:
             except StopIteration:  # nothing to append
                 return
             array = self._checkarrayforappend(firstarray)
-            array.tofile(str(self._datapath))
+            try:
+                array.tofile(str(self._datapath))
+                if self._datapath.stat().st_size != array.nbytes:
+                    raise OSError(f"could not write all {array.nbytes} bytes "
+                                  f"to '{self._datapath}'")
+            except Exception as exception:
+                os.truncate(self._datapath, 0)  # array was and stays empty
+                raise AppendDataError(
+                    f"{exception}\nAppending of data did not succeed. Shape "
+                    f"of array still is {self._shape}.")
             self._update_len(lenincrease=array.shape[0])
         with self._open_array() as (v, fd):
             oldshape = v.shape
